@@ -182,8 +182,35 @@ func main() {
 		}
 	}
 
+	// ---- push: put the server timestamp well ahead of the wall clock, so that the next
+	// ticks find it ahead (and must leave it alone)
+	{
+		d := newCaller(id(2))
+		for i := 0; i < 1500; i++ {
+			d.record(db19.Timestamp())
+		}
+	}
+	lead := func() int64 { return lastNext.Load() - absMs(core.Now()) }
+	leadMax := int64(1 << 40)
+	if seconds > 5 {
+		leadMax = 2500 // long runs: let the clock catch up again and again (effective ticks)
+	}
 	round := 0
 	for time.Now().Before(deadline) {
+		if lead() > leadMax {
+			// slow phase: sparse calls until the wall clock has overtaken the server timestamp
+			th := core.NewThread(nil)
+			c := newCaller(id(1))
+			d := newCaller(id(2))
+			for lead() > -200 && time.Now().Before(deadline) {
+				time.Sleep(time.Duration(50+rnd.Intn(100)) * time.Millisecond)
+				c.record(th.Timestamp())
+				if rnd.Intn(3) == 0 {
+					d.record(db19.Timestamp())
+				}
+			}
+			continue
+		}
 		round++
 		// ---- phase A: threads sharing the process client state + direct callers, burst
 		{
@@ -259,23 +286,7 @@ func main() {
 			curClient.Store(0)
 			core.VerifTsSwap(saved)
 		}
-		// ---- slow phase (every other round, when there is time): sparse calls so that the
-		// wall clock can overtake the server timestamp and a tick becomes effective
-		if round%2 == 0 && time.Until(deadline) > 2500*time.Millisecond {
-			th := core.NewThread(nil)
-			c := newCaller(id(1))
-			d := newCaller(id(2))
-			end := time.Now().Add(2200 * time.Millisecond)
-			for time.Now().Before(end) {
-				time.Sleep(time.Duration(50+rnd.Intn(100)) * time.Millisecond)
-				c.record(th.Timestamp())
-				if rnd.Intn(3) == 0 {
-					d.record(db19.Timestamp())
-				}
-			}
-		} else {
-			time.Sleep(time.Duration(100+rnd.Intn(150)) * time.Millisecond)
-		}
+		time.Sleep(time.Duration(40+rnd.Intn(80)) * time.Millisecond)
 	}
 	// make sure something is handed out after the last tick that happened
 	{
